@@ -16,7 +16,7 @@ from lib import vf
 INVARIANTS = ("ForwardOnlyRouted AnsweredLocally EveryAnswerHasAKind PathStaysAbsolute EscapesSurvive "
               "OnlyStripAndPrepend QueryMergedInFront HostOnlyOnRequest PeerIsTold TLSHeaderTruthful "
               "RequestedHostIsTold RequestedPortIsTold STSOnlyOnTLS RedirectStatusIs3xx NeverRedirectsToItself "
-              "RedirectCarriesQuery")
+              "RedirectCarriesQuery FaultNotHidden")
 
 CFG = """SPECIFICATION Spec
 CONSTANTS
@@ -25,6 +25,7 @@ CONSTANTS
   Escapes <- MCEscapes
   Encoded <- MCEncoded
   Decoded <- MCDecoded
+  Faulty <- MCFaulty
   Prop = "%(prop)s"
   SliceMod = %(mod)d
   SliceSeed = %(seed)d
@@ -179,9 +180,11 @@ def run(ctx):
     ctx.level = "model_checking"
     ctx.assumptions += COMMON_ASSUMPTIONS + [
         "never sliced (in every quick run): route options that need escaping (strip/prepend with a non-ASCII letter or ^, the client spelling the prefix %C3%B6 / %c3%b6 / %5E) x 6 raw paths; queries with empty parameters (leading, trailing, doubled &) x route query; upstream answers preceded by 103 / 102 / 103+103 and requests with Expect: 100-continue (final status, headers, body judged; the informational answers themselves and the Expect header are not)",
-        "universe: 6 methods x 10 raw paths (%2F %2f %20 %41 %C3%A9, unescaped sub-delimiters, strip leaving nothing / a relative rest) x 3 queries x strip {none, /strip, one that does not apply} x prepend {none, /pre, pre} x host {none, dst, name} x 3 target queries x 4 (header set, upstream answer) pairs, plain and TLS front alternating; no-route: 6 methods x 2 paths x 3 queries x status {404, 503, 999} x page {empty, html} x {host without routes, route that does not match}",
+        "universe: 6 methods x 10 raw paths (%2F %2f %20 %41 %C3%A9, unescaped sub-delimiters, strip leaving nothing / a relative rest) x 3 queries x strip {none, /strip, one that does not apply, /strip/} x prepend {none, /pre, pre} x host {none, dst, name} x 3 target queries x 4 (header set, upstream answer) pairs, plain and TLS front alternating; no-route: 6 methods x 2 paths x 3 queries x status {404, 503, 999} x page {empty, html} x {host without routes, route that does not match}",
         "bodies {0, 1, 32 KiB+1, 1 MiB} x {Content-Length, chunked in seeded pieces} attached round-robin to requests and upstream answers",
-        "scope: strip-then-prepend where strip leaves an empty or relative rest AND a prefix is prepended is left out (two readings); a strip prefix that ends inside an escape is not asked; hop-by-hop headers are net/http's; User-Agent suppression and added forwarding headers are not judged here (C08)",
+        "never sliced: upstream statuses 200, 299, 300, 404, 499, 500, 599, 600, 799, 999 and the no-route status, each with and without an access logger configured; upstreams that die before their answer is complete (closed before any header; Content-Length announced, closed after 10 000 of 32 769 body bytes; chunked without the last chunk after 10 000 / 0 body bytes, closed or reset): the client must either see the exchange fail or get a 5xx from fabio, never a complete-looking answer with part of the body missing (what the upstream had received is not judged in these cases)",
+        "strip leaving an empty or relative rest together with prepend follows the documentation's reading: strip yields an absolute path ('forward /path/to/file as /to/file'), 'prepending is done after stripping' (/strip -> /pre/, /stripme/x -> /pre/me/x, strip=/strip/ on /strip/a/b -> /pre/a/b)",
+        "scope: a strip prefix that ends inside an escape is not asked; hop-by-hop headers are net/http's; User-Agent suppression and added forwarding headers are not judged here (C08)",
     ]
     run_prop(ctx, "C07", ctx.pick(8, 1),
              "one case per finished pipeline run TLC enumerated (quick: the slice selected by the seed; thorough: the full product); non-trivial = forwarded case with strip/prepend applying, escapes in the path, a host option or a target query",
